@@ -630,6 +630,7 @@ func translateFrMisc(f *ast.File, write func(name, imports, content string)) {
 		{"SetOne", "elem", "(z : L4)", "func() *Element", map[string]string{"z": "elem"}},
 		{"Equal", "bool", "(z : L4) (x : L4)", "func(x *Element) bool", map[string]string{"z": "elem", "x": "elem"}},
 		{"IsZero", "bool", "(z : L4)", "func() bool", map[string]string{"z": "elem"}},
+		{"IsUint64", "bool", "(z : L4)", "func() bool", map[string]string{"z": "elem"}},
 		{"Cmp", "int", "(z : L4) (x : L4)", "func(x *Element) int", map[string]string{"z": "elem", "x": "elem"}},
 		{"LexicographicallyLargest", "bool", "(z : L4)", "func() bool", map[string]string{"z": "elem"}},
 		{"Exp", "elem", "(z : L4) (x : L4) (exponent : Int)", "func(x Element, exponent *big.Int) *Element", map[string]string{"z": "elem", "x": "elem", "exponent": "big"}},
